@@ -545,39 +545,96 @@ fn main() {
     let lines: Vec<String> = stdin.lock().lines().map(|l| l.unwrap()).collect();
     let n = lines.len();
     let lines = Arc::new(lines);
-    let results = Arc::new(Mutex::new(vec![String::new(); n]));
+    let results: Arc<Mutex<Vec<Option<String>>>> = Arc::new(Mutex::new(vec![None; n]));
     let next = Arc::new(Mutex::new(0usize));
-    let mut handles = Vec::new();
-    for _ in 0..threads.max(1) {
+    // what each worker is busy with: (line index, since when); a line that takes longer than the limit is answered
+    // `timeout`, its worker is abandoned (a thread cannot be stopped) and a fresh worker takes its place
+    let limit = std::time::Duration::from_secs(
+        std::env::var("HDW_LINE_TIMEOUT").ok().and_then(|s| s.parse().ok()).unwrap_or(15),
+    );
+    let busy: Arc<Mutex<Vec<Option<(usize, std::time::Instant)>>>> = Arc::new(Mutex::new(Vec::new()));
+    let spawn_worker = {
         let lines = lines.clone();
         let results = results.clone();
         let next = next.clone();
-        handles.push(
+        let busy = busy.clone();
+        move || {
+            let lines = lines.clone();
+            let results = results.clone();
+            let next = next.clone();
+            let busy = busy.clone();
+            let slot = {
+                let mut b = busy.lock().unwrap();
+                b.push(None);
+                b.len() - 1
+            };
             thread::Builder::new()
                 .stack_size(64 << 20)
                 .spawn(move || loop {
                     let i = {
                         let mut g = next.lock().unwrap();
-                        let i = *g;
-                        *g += 1;
-                        i
+                        // `usize::MAX` = stop handing out lines (a line timed out: the process is wound down and the
+                        // caller starts a fresh one for the lines not yet run, so that abandoned workers do not pile up)
+                        if *g == usize::MAX {
+                            usize::MAX
+                        } else {
+                            let i = *g;
+                            *g += 1;
+                            i
+                        }
                     };
                     if i >= lines.len() {
+                        busy.lock().unwrap()[slot] = None;
                         break;
                     }
+                    busy.lock().unwrap()[slot] = Some((i, std::time::Instant::now()));
                     let out = run_line(lines[i].trim_end());
-                    results.lock().unwrap()[i] = out;
+                    let mut r = results.lock().unwrap();
+                    if r[i].is_none() {
+                        r[i] = Some(out);
+                    }
                 })
-                .unwrap(),
-        );
+                .unwrap();
+        }
+    };
+    for _ in 0..threads.max(1) {
+        spawn_worker();
     }
-    for h in handles {
-        h.join().unwrap();
+    let mut winding_down = false;
+    loop {
+        thread::sleep(std::time::Duration::from_millis(20));
+        if results.lock().unwrap().iter().all(|r| r.is_some()) {
+            break;
+        }
+        if winding_down && busy.lock().unwrap().iter().all(|b| b.is_none()) {
+            break;
+        }
+        let mut stuck = Vec::new();
+        {
+            let mut b = busy.lock().unwrap();
+            for slot in b.iter_mut() {
+                if let Some((i, since)) = *slot {
+                    if since.elapsed() > limit && results.lock().unwrap()[i].is_none() {
+                        stuck.push(i);
+                        *slot = None;
+                    }
+                }
+            }
+        }
+        for i in stuck {
+            results.lock().unwrap()[i] = Some("timeout".to_string());
+            *next.lock().unwrap() = usize::MAX;
+            winding_down = true;
+        }
     }
-    let results = results.lock().unwrap();
+    let results: Vec<String> = results.lock().unwrap().iter().map(|r| r.clone().unwrap_or_else(|| "not-run".to_string())).collect();
     let stdout = io::stdout();
     let mut w = io::BufWriter::new(stdout.lock());
     for r in results.iter() {
         writeln!(w, "{r}").unwrap();
     }
+    w.flush().unwrap();
+    drop(w);
+    // abandoned workers may still be spinning
+    std::process::exit(0);
 }
